@@ -72,10 +72,26 @@ def scenario(dim, periodic, n, mask=None, adjacent=None, seed=0, anchor=(0.0, 0.
             'mask': None if mask is None else [bool(b) for b in mask]}
 
 
+def replicated(sc):
+    """the 3^d-fold replicated generator set in the tripled non-periodic box; index = block * n + k, block 0 = the central block"""
+    ax = AX[sc['dim']]
+    w = sc['width']
+    blocks = [(0, 0, 0)] + [b for b in __import__('itertools').product((-1, 0, 1), repeat=3) if b != (0, 0, 0) and all(b[a] == 0 for a in range(3) if a not in ax)]
+    gens = []
+    for b in blocks:
+        for g in sc['gens']:
+            gens.append([g[a] + b[a] * w[a] for a in range(3)])
+    rep = {'kind': 'scenario', 'dim': sc['dim'], 'periodic': False, 'anchor': [sc['anchor'][a] - (w[a] if a in ax else 0.0) for a in range(3)],
+           'width': [w[a] * (3 if a in ax else 1) for a in range(3)], 'gens': gens, 'mask': None}
+    return rep, blocks
+
+
 def _lines(sc):
     lines = [build_line('build', sc), build_line('build_via_integrator', sc)]
     if sc['mask'] is not None:
         lines.append(build_line('build', sc, mask=None))
+    if sc['periodic'] and len(sc['gens']) <= 8:
+        lines.append(build_line('build', replicated(sc)[0]))
     return lines
 
 
@@ -111,6 +127,7 @@ def violations(sc, profile='debug', only=None, res=None):
     box = 1.0
     for a in ax:
         box *= w[a]
+    fscale = box / min(w[a] for a in ax)        # characteristic face measure (faces are (d-1)-dimensional)
 
     def add(pid, txt):
         if only is None or pid in only:
@@ -156,7 +173,7 @@ def violations(sc, profile='debug', only=None, res=None):
         ln = math.sqrt(sum(x * x for x in nrm))
         if abs(ln - 1.0) > 1e-9:
             add('C04', 'face %d: normal %r is not a unit vector' % (f, nrm))
-        if fa['area'] > 1e-9 * box:
+        if fa['area'] > 1e-9 * fscale:
             if sum((c - g) * x for c, g, x in zip(cen, gl, nrm)) < -1e-9 * max(eff_w):
                 add('C04', 'face %d (left %d, right %r): normal %r points towards the left generator (centroid %r, generator %r)' % (f, fa['left'], fa['right'], nrm, cen, gl))
             if fa['right'] is None:
@@ -183,17 +200,48 @@ def violations(sc, profile='debug', only=None, res=None):
                 s = fa['shift'][a]
                 if not (s == 0 or (per and a in ax and abs(abs(s) - w[a]) <= 1e-12 * w[a])):
                     add('C06', 'face %d: shift %r is not a lattice vector of the box %r' % (f, fa['shift'], w))
-        if per and fa['right'] is None and fa['area'] > 1e-9 * box and any(abs(nrm[a]) > 0.5 for a in ax):
+        if per and fa['right'] is None and fa['area'] > 1e-9 * fscale and any(abs(nrm[a]) > 0.5 for a in ax):
             add('C06', 'periodic tessellation has a boundary face (face %d, normal %r)' % (f, nrm))
     # ---- C03: periodic faces come in reciprocal pairs (both cells selected)
     for f, fa in enumerate(faces):
-        if fa['shift'] is not None and fa['right'] is not None and sel(fa['right']) and fa['area'] > 1e-7 * box:
+        if fa['shift'] is not None and fa['right'] is not None and sel(fa['right']) and fa['area'] > 1e-7 * fscale:
             rec = [g for g in faces if g['left'] == fa['right'] and g['right'] == fa['left'] and g['shift'] is not None
-                   and all(abs(a + b) <= 1e-12 * max(1.0, abs(a)) for a, b in zip(g['shift'], fa['shift']))]
+                   and all(abs(g['shift'][a_] + fa['shift'][a_]) <= 1e-9 * w[a_] for a_ in range(3))]
             if not rec:
                 add('C03', 'periodic face %d (%d -> %d, shift %r) has no reciprocal face with the negated shift' % (f, fa['left'], fa['right'], fa['shift']))
-            elif abs(rec[0]['area'] - fa['area']) > 1e-9 * box:
+            elif abs(rec[0]['area'] - fa['area']) > 1e-9 * fscale:
                 add('C03', 'periodic face %d and its reciprocal differ in area: %r vs %r' % (f, fa['area'], rec[0]['area']))
+    # ---- C06: the periodic tessellation is the central block of the tessellation of the 3^d-fold replicated generators
+    if per and len(gens) <= 8 and res[-1][0] == 'ok' and len(res) >= (4 if mask is not None else 3):
+        rc, rf, rk = parse_build(res[-1][1:])
+        rep, blocks = replicated(sc)
+        for k in range(n):
+            if not sel(k):
+                continue
+            if abs(rc[k]['volume'] - cells[k]['volume']) > 1e-9 * box:
+                add('C06', 'cell %d has measure %r, in the replicated non-periodic tessellation %r' % (k, cells[k]['volume'], rc[k]['volume']))
+            want = set()
+            for fa in rf:
+                if fa['area'] <= 1e-7 * fscale or fa['right'] is None:
+                    continue
+                for me, other in ((fa['left'], fa['right']), (fa['right'], fa['left'])):
+                    if me == k:
+                        b = blocks[other // n]
+                        want.add((other % n, tuple(b)))
+            got = set()
+            for f in conn[cells[k]['offset']:cells[k]['offset'] + cells[k]['count']]:
+                if f >= len(faces):
+                    continue
+                fa = faces[f]
+                if fa['area'] <= 1e-7 * fscale or fa['right'] is None:
+                    continue
+                if fa['left'] == k:
+                    sh = fa['shift'] or (0.0, 0.0, 0.0)
+                    got.add((fa['right'], tuple(int(round(sh[a] / w[a])) for a in range(3))))
+                elif fa['shift'] is None and sel(fa['left']):
+                    got.add((fa['left'], (0, 0, 0)))
+            if mask is None and got != want:
+                add('C06', 'cell %d has faces towards (generator, lattice shift) %r, in the replicated tessellation towards %r' % (k, sorted(got), sorted(want)))
     # ---- C02: positive measures that sum to the box
     if mask is None or all(mask):
         tot = sum(c['volume'] for c in cells)
@@ -227,7 +275,7 @@ def violations(sc, profile='debug', only=None, res=None):
     for k, c in enumerate(cells):
         if not sel(k):
             continue
-        pts = [c['centroid']] + [faces[f]['centroid'] for f in conn[c['offset']:c['offset'] + c['count']] if f < len(faces) and faces[f]['left'] == k and faces[f]['area'] > 1e-9 * box]
+        pts = [c['centroid']] + [faces[f]['centroid'] for f in conn[c['offset']:c['offset'] + c['count']] if f < len(faces) and faces[f]['left'] == k and faces[f]['area'] > 1e-9 * fscale]
         for p in pts:
             d = math.sqrt(sum((p[a] - gens[k][a]) ** 2 for a in ax))
             if c['sr'] < 2 * d * (1 - 1e-9):
@@ -252,7 +300,7 @@ def violations(sc, profile='debug', only=None, res=None):
         def fset(fs, k):
             s = set()
             for fa in fs:
-                if fa['area'] <= 1e-9 * box:
+                if fa['area'] <= 1e-9 * fscale:
                     continue
                 if fa['left'] == k:
                     s.add((fa['right'], tuple(fa['shift']) if fa['shift'] else None))
@@ -344,6 +392,44 @@ def clustered_scenarios(dim=1, periodic=False, mask=None):
     return out
 
 
+def ring_scenario(dim, n):
+    """one generator surrounded by n others (a cell with about n faces): ring in the x-y plane (2D) / spiral on a sphere (3D), radii slightly
+    varied so that the set is not co-spherical"""
+    a, w = (0.0, 0.0, 0.0), (1.0, 1.0, 1.0)
+    c = (0.5, 0.5, 0.5 if dim == 3 else 0.0)
+    gens = [list(c)]
+    for k in range(n):
+        r = 0.3 * (1.0 + 0.03 * ((k * 7919) % 13) / 13.0)
+        if dim == 2:
+            t = 2 * math.pi * k / n
+            gens.append([c[0] + r * math.cos(t), c[1] + r * math.sin(t), 0.0])
+        else:
+            z = 1 - 2 * (k + 0.5) / n
+            t = math.pi * (1 + 5 ** 0.5) * k
+            q = math.sqrt(max(0.0, 1 - z * z))
+            gens.append([c[0] + r * q * math.cos(t), c[1] + r * q * math.sin(t), c[2] + r * z])
+    return {'kind': 'scenario', 'dim': dim, 'periodic': False, 'anchor': list(a), 'width': list(w), 'gens': gens, 'mask': None}
+
+
+def pair_scenarios(dim=2, periodic=True, mask=None):
+    """few generators close together (sparse box): with periodic boundaries their cells border far-away and diagonal images"""
+    out = []
+    a, w = (0.0, 0.0, 0.0), (1.0, 1.25, 0.75)
+    for gs in ([(0.5, 0.5, 0.5), (0.52, 0.53, 0.51)], [(0.5, 0.5, 0.5)], [(0.1, 0.1, 0.1), (0.15, 0.12, 0.13), (0.12, 0.16, 0.11)],
+               [(0.9, 0.2, 0.6), (0.85, 0.25, 0.62)]):
+        gens = [[a[k] + g[k] * w[k] if k < dim else 0.0 for k in range(3)] for g in gs]
+        m = None if mask is None else (list(mask) + [True] * len(gens))[:len(gens)]
+        out.append({'kind': 'scenario', 'dim': dim, 'periodic': bool(periodic), 'anchor': list(a), 'width': list(w), 'gens': gens, 'mask': m})
+    return out
+
+
+def scaled(sc, s, offset=(0.0, 0.0, 0.0)):
+    """the same configuration at another length scale / position (tessellations are similarity invariant)"""
+    ax = AX[sc['dim']]
+    f = lambda v: [(v[a] * s + offset[a] * s) if a in ax else v[a] for a in range(3)]
+    return dict(sc, anchor=f(sc['anchor']), width=[sc['width'][a] * s if a in ax else sc['width'][a] for a in range(3)], gens=[f(g) for g in sc['gens']])
+
+
 BATTERY_PIDS = ('C03', 'C04', 'C05', 'C06', 'C07', 'C08', 'C12', 'C13', 'C16')
 
 
@@ -361,7 +447,11 @@ def battery(seed=0):
                         out.append(scenario(dim, per, n, m, adjacent=(n - 1, 0) if n >= 2 else None, seed=sd))
             out.extend(wall_scenarios(dim, per))
             out.extend(wall_scenarios(dim, per, mask=[False, True, True]))
+            out.extend(pair_scenarios(dim, per))
             out.extend(clustered_scenarios(dim, per))
+            for s_, off_ in ((1e-9, (0.0, 0.0, 0.0)), (1e-17, (0.0, 0.0, 0.0)), (3e6, (7.0, -3.0, 11.0))):
+                out.append(scaled(scenario(dim, per, 4, None, seed=seed + 3), s_, off_))
+                out.append(scaled(scenario(dim, per, 5, [True, False, True, True, False], seed=seed + 4), s_, off_))
             out.extend(clustered_scenarios(dim, per, mask=[True, False, True, True, False, True]))
     return out
 
